@@ -272,6 +272,92 @@ def run_freeform(args):
     return p
 
 
+# ------------------------------------------------------------------------------------------
+# renderer / converter objects used for several messages: what one rendered before must not show in the next rendering
+def _history_pool():
+    """small messages with different features (attributes, compressed, characters with quotes, data not present, section 2)"""
+    B, D = S.tables_for(33)
+    defs = [
+        ('plain-s2', [1001, 5002, 1011], 1, False, b'\x01\x02'),
+        ('comp', [301001, 12101, 1011], 2, True, None),
+        ('qa', [1001, 5002, 222000, 101002, 31031, 33007, 33007], 1, False, None),
+        ('repl-204', [102002, 204002, 31021, 1001, 204000, 2001, 221001, 12101], 2, False, None),
+    ]
+    out = []
+    for name, descs, nsub, comp, s2 in defs:
+        cnt = [0]
+
+        def ch(info):
+            cnt[0] += 1
+            if info.get('role') == 'bit':
+                v = 0
+            elif info['kind'] == 'str':
+                v = (b'a\'b"c #>' + bytes([65 + cnt[0] % 26]) * 20)[:info['width'] // 8]
+                return [v, v[::-1]] if comp else v
+            else:
+                v = (3 * cnt[0] + 1) % ((1 << info['width']) - 1) if info['width'] > 1 else 0
+            if comp:
+                return [v] * nsub if info.get('role') else [v, min(v + 1, (1 << info['width']) - 2)]
+            return v
+        buf, subs, notes, nb = codec.encode(B, D, descs, nsub, comp, ch)
+        out.append((name, message.build(message.Spec(descs=descs, nsub=nsub, compressed=comp, sec2=s2), buf)[0]))
+    return out
+
+
+HIST_KINDS = ['FT', 'FJ', 'NT', 'NJ', 'cFT', 'cNJ', 'cNT']
+
+
+def _hist_world():
+    from pybufrkit.renderer import FlatJsonRenderer, FlatTextRenderer, NestedJsonRenderer, NestedTextRenderer
+    return {'FT': FlatTextRenderer(), 'FJ': FlatJsonRenderer(), 'NT': NestedTextRenderer(), 'NJ': NestedJsonRenderer()}
+
+
+def _hist_apply(world, kind, msg):
+    from pybufrkit.utils import flat_text_to_flat_json, nested_json_to_flat_json, nested_text_to_flat_json
+    try:
+        if kind[0] == 'c':
+            r = world[kind[1:]].render(msg)
+            conv = {'cFT': flat_text_to_flat_json, 'cNJ': nested_json_to_flat_json, 'cNT': nested_text_to_flat_json}[kind]
+            return repr(conv(r))
+        return repr(world[kind].render(msg))
+    except Exception as e:
+        return 'EXC ' + type(e).__name__ + ' ' + str(e)[:60]
+
+
+def run_renderer_histories(args):
+    """every sequence of `length` operations (renderer or render+convert-back kind x pool message) on ONE set of renderer
+    objects and ONE decoded object per message; each step must give what fresh objects give"""
+    firsts, length = args
+    p = Partial()
+    pool = _history_pool()
+    ev = [(k, i) for k in HIST_KINDS for i in range(len(pool))]
+    golden = {}
+    for k, i in ev:
+        golden[(k, i)] = _hist_apply(_hist_world(), k, CC.decoder().process(pool[i][1]))
+        if golden[(k, i)].startswith('EXC '):
+            p.violation('renderer-history-golden|' + k, {'history': [[k, i]]}, '%s of %s with fresh objects: %s' % (k, pool[i][0], golden[(k, i)]))
+    for first in firsts:
+        for rest in itertools.product(range(len(ev)), repeat=length - 1):
+            h = (first,) + rest
+            world = _hist_world()
+            msgs = [CC.decoder().process(b) for _, b in pool]
+            p.n['exec'] += 1
+            for step, j in enumerate(h):
+                k, i = ev[j]
+                got = _hist_apply(world, k, msgs[i])
+                p.n['renderings'] += 1
+                if got != golden[(k, i)]:
+                    p.violation('renderer-history|%s|after-%s' % (k, ev[h[step - 1]][0] if step else 'nothing'),
+                                {'history': [list(ev[x]) for x in h[:step + 1]]},
+                                '%s of message %s after %r on the same renderer / message objects differs from the result of '
+                                'fresh objects' % (k, pool[i][0], [(ev[x][0], pool[ev[x][1]][0]) for x in h[:step]]))
+                    break
+                p.outcome((k, i))
+    p.n['nodes'] += p.n['renderings'] + 1
+    p.n['edges'] += p.n['renderings']
+    return p
+
+
 def dnp_structs():
     """221YYY spans that cover operators, replications and sequences (not only plain elements).  Which descriptors FM-94
     wants counted is not judged here: the renderings only have to agree with the implementation's own flat result."""
@@ -355,6 +441,22 @@ def run_cli_part(_):
 
 
 def replay(part, case):
+    if part == 'renderer-histories':
+        pool = _history_pool()
+        ev = [(k, i) for k in HIST_KINDS for i in range(len(pool))]
+        h = [ev.index(tuple(x)) for x in case['history']]
+        p = Partial()
+        world, msgs = _hist_world(), [CC.decoder().process(b) for _, b in pool]
+        got = None
+        for j in h:
+            got = _hist_apply(world, ev[j][0], msgs[ev[j][1]])
+        k, i = ev[h[-1]]
+        gold = _hist_apply(_hist_world(), k, CC.decoder().process(pool[i][1]))
+        if len(h) == 1 and gold.startswith('EXC '):
+            return [{'sig': 'renderer-history-golden|' + k, 'detail': gold}]
+        if got != gold:
+            return [{'sig': 'renderer-history|%s|after-%s' % (k, ev[h[-2]][0] if len(h) > 1 else 'nothing'), 'detail': 'differs'}]
+        return []
     if part.startswith('freeform'):
         from mc.gen import freeform as F
         r = four_formats(F.build(case['descs'], case['pattern'], case['nsub'], case['compressed']))
@@ -421,6 +523,13 @@ def main(tier, seed):
                                ('data-not-present-spans-c2', dnp_structs(), dict(nsub=2, compressed=True, ambiguous_ok=True))):
         p = merge_all(run_shards(run_structs, [(s, env) for s in split(structs, 64)]))
         rep.add_part(name, p, bounds=dict(structures=len(structs), **env))
+    nev = len(HIST_KINDS) * len(_history_pool())
+    hl = 2 if tier == 'quick' else 3
+    p = merge_all(run_shards(run_renderer_histories, [([i], hl) for i in range(nev)]))
+    rep.add_part('renderer-histories', p, bounds={'operations': HIST_KINDS, 'messages': [n_ for n_, _ in _history_pool()],
+                                                  'history_length': hl, 'histories': nev ** hl},
+                 rule='every sequence of renderings / render-and-convert-back operations on one set of renderer objects and one '
+                      'decoded object per message; each step is compared with the result of fresh objects')
     from mc.gen import freeform as F
     if tier == 'quick':
         ff = [('freeform-operators', F.operator_programs(3, 2) + F.focused_programs(5, 2), [0, 3, 5], [(1, False), (2, True)]),
